@@ -228,6 +228,23 @@ func taintedRoots(fn *ssa.Function) []ssa.Value {
 				}
 			}
 		}
+		// a small reader type of the module that keeps the connection (or a reader built on it) in a field
+		st := t
+		if pt, ok := st.(*types.Pointer); ok {
+			st = pt.Elem()
+		}
+		if n, ok := st.(*types.Named); ok && n.Obj().Pkg() != nil && strings.HasPrefix(n.Obj().Pkg().Path(), modPath) {
+			if sv, ok := n.Underlying().(*types.Struct); ok && !isConnPtr(t) {
+				for i := 0; i < sv.NumFields(); i++ {
+					ft := sv.Field(i).Type()
+					_, isIface := ft.Underlying().(*types.Interface)
+					if (isIface && hasReadMethod(ft) && sv.Field(i).Name() != "Conn") || isConnPtr(ft) {
+						out = append(out, p)
+						break
+					}
+				}
+			}
+		}
 	}
 	for _, fv := range fn.FreeVars {
 		if pt, ok := fv.Type().(*types.Pointer); ok && isConnPtr(pt.Elem()) {
@@ -428,8 +445,7 @@ func c06R3(c *Ctx, r *Report, rule string) {
 				problems = append(problems, "the error is never tested nor returned")
 			}
 			for _, e := range edges {
-				blocks := reachableFrom(e.succ, true)
-				blocks[e.succ] = true
+				blocks := reachableKnowingNonNil(e.ifi, e.succ)
 				for b := range blocks {
 					ret, ok := b.Instrs[len(b.Instrs)-1].(*ssa.Return)
 					if !ok {
@@ -940,4 +956,72 @@ func reachesAvoiding(from, to ssa.Instruction, avoid map[*ssa.BasicBlock]bool) b
 		work = append(work, b.Succs...)
 	}
 	return false
+}
+
+// reachableKnowingNonNil: the blocks reachable from succ, the successor of ifi on which the value ifi tests is not
+// nil, along paths that are consistent with that knowledge: a later test of the same value, or of a phi that on this
+// path holds that value, goes the way the knowledge says (if err == nil { err = g() }; if err != nil { return ... }
+// - having come past the first test with a non-nil err, the second one cannot find it nil).
+func reachableKnowingNonNil(ifi *ssa.If, succ *ssa.BasicBlock) map[*ssa.BasicBlock]bool {
+	x0, _, ok := nilCheck(ifi.Cond)
+	out := map[*ssa.BasicBlock]bool{}
+	if !ok {
+		out = reachableFrom(succ, true)
+		out[succ] = true
+		return out
+	}
+	type state struct {
+		b, pred *ssa.BasicBlock
+		known   string
+	}
+	seen := map[state]bool{}
+	var visit func(b, pred *ssa.BasicBlock, known map[ssa.Value]bool)
+	keyOf := func(known map[ssa.Value]bool) string {
+		var ks []string
+		for v := range known {
+			ks = append(ks, v.Name())
+		}
+		sort.Strings(ks)
+		return strings.Join(ks, ",")
+	}
+	visit = func(b, pred *ssa.BasicBlock, known map[ssa.Value]bool) {
+		// phis of b take the value of the edge we came by
+		k2 := map[ssa.Value]bool{}
+		for v := range known {
+			k2[v] = true
+		}
+		for _, in := range b.Instrs {
+			phi, isPhi := in.(*ssa.Phi)
+			if !isPhi {
+				break
+			}
+			delete(k2, phi)
+			for i, p := range b.Preds {
+				if p == pred && i < len(phi.Edges) && known[phi.Edges[i]] {
+					k2[phi] = true
+				}
+			}
+		}
+		st := state{b, pred, keyOf(k2)}
+		if seen[st] || len(seen) > 4000 {
+			return
+		}
+		seen[st] = true
+		out[b] = true
+		if last, isIf := b.Instrs[len(b.Instrs)-1].(*ssa.If); isIf {
+			if x, neq, isNil := nilCheck(last.Cond); isNil && k2[x] {
+				if neq {
+					visit(b.Succs[0], b, k2)
+				} else {
+					visit(b.Succs[1], b, k2)
+				}
+				return
+			}
+		}
+		for _, su := range b.Succs {
+			visit(su, b, k2)
+		}
+	}
+	visit(succ, ifi.Block(), map[ssa.Value]bool{x0: true})
+	return out
 }
